@@ -16,40 +16,35 @@ NAMES = "abc"
 # /verif/known_findings.json lists its signature for C07.
 SIG_STALE = "C07-stale-wake"          # a waiter picked by one notify is woken/destroyed again through its other waittill_any registrations before its turn
 SIG_PTR = "C07-unresolved-result"     # println of a waitthread result after a killed callee shows an unresolved 'pointer' instead of NIL
-SIG_UB = "C07-vm-reentered"           # the timer loop runs nested and re-enters the VM of a thread that is still executing (use after free)
 WHAT = {
     SIG_STALE: "a waiter picked by one notify is woken (or destroyed) a second time through its other waittill_any registrations by a notify/delete nested in the resume loop: wake-up without notify out of a later waittill (model = implementation != specification)",
     SIG_PTR: "after a waitthread whose callee was killed (endon / removal of the awaited object) the caller's result is an unresolved 'pointer' value instead of NIL (model = implementation != specification)",
-    SIG_UB: "when the current thread dies, a nested ScriptExecuteInternal runs ExecuteRunning and resumes a waitthread caller whose VM is still executing: ScriptVM::Execute is re-entered and the VM is freed under its caller (AddressSanitizer: heap-use-after-free)",
 }
 # C07_DEFECTS=order  also generate waitthread callees waiting under different names of one object
 #                    (the hash order in which UnregisterAll enumerates names decides who resumes first;
 #                    the model abstracts it)
-# C07_DEFECTS=ub     also keep generated cases in which the model reports undefined behaviour
 DEFECTS = set(os.environ.get("C07_DEFECTS", "").replace(",", " ").split())
 
-FLAGS = re.compile(r" ub=(\d) stale=(\d)$")
+FLAGS = re.compile(r" stale=(\d)$")
 
 
 def split_flags(line):
     m = FLAGS.search(line)
     if not m:
-        return line, 0, 0
-    return line[:m.start()], int(m.group(1)), int(m.group(2))
+        return line, 0
+    return line[:m.start()], int(m.group(1))
 
 
 def analyse(lines):
-    """model/spec lines of the driver -> dict(m, s, ub, sig) ; m = model observations without flags,
-    cut after the first operation with undefined behaviour; sig = finding signature explaining m != s"""
-    m, s, ub, stale_at = [], [], None, None
+    """model/spec lines of the driver -> dict(m, s, sig) ; m = model observations without the flag;
+    sig = finding signature explaining m != s"""
+    m, s, stale_at = [], [], None
     for l in lines:
         if l.startswith("m "):
-            core, u, _ = split_flags(l[2:])
-            if u and ub is None:
-                ub = len(m)
+            core, _ = split_flags(l[2:])
             m.append(core)
         elif l.startswith("s "):
-            core, _, st = split_flags(l[2:])
+            core, st = split_flags(l[2:])
             if st and stale_at is None:
                 stale_at = len(s)
             s.append(core)
@@ -64,7 +59,7 @@ def analyse(lines):
             sig = SIG_PTR
         else:
             sig = "model-vs-spec"
-    return {"m": m, "s": s, "ub": ub, "sig": sig}
+    return {"m": m, "s": s, "sig": sig}
 
 
 class Ctx:
@@ -92,15 +87,13 @@ class C07(vlib.HistoryProp):
 
     def __init__(self):
         self.observed = {}        # signature -> [case ids]
-        self.dropped_ub = 0
         self.cache = {}           # model trace -> analysis (for signature())
 
     def assumptions(self):
         return ["injected integral millisecond clock (hook H1), constant during an Execute; time scale 1 (the two time bases of the timer coincide: C06)",
                 "threads are straight-line programs of println / wait / waittill / waittill_any / notify / endon / delete / spawn / thread / waitthread / end; event names a, b, c (never \"delete\"/\"remove\", which the Listener destructor notifies)",
                 "script objects are plain Listeners held in level.o0..o2; a thread numbers itself from the counter level.ntid when it starts",
-                "the order in which con::set enumerates the NAMES of one listener (UnregisterAll, CancelWaitingAll) is modelled as c, b, a, \"\"; it is observable only through the resume order of the waitthread callers of waiters destroyed by ONE delete under DIFFERENT names: such programs are generated only with C07_DEFECTS=order",
-                "histories in which the model reports undefined behaviour (finding %s: the C++ re-enters a running VM) are not compared beyond that point; they are kept out of the generation unless the finding is recorded or C07_DEFECTS=ub" % SIG_UB]
+                "the order in which con::set enumerates the NAMES of one listener (UnregisterAll, CancelWaitingAll) is modelled as c, b, a, \"\"; it is observable only through the resume order of the waitthread callers of waiters destroyed by ONE delete under DIFFERENT names: such programs are generated only with C07_DEFECTS=order"]
 
     def enabled(self, sig):
         return any(f.get("signature") == sig for f in vlib.known_findings("C07"))
@@ -114,8 +107,6 @@ class C07(vlib.HistoryProp):
 
     def signature(self, case, rr, vv):
         det = self.cache.get(tuple(rr.get("m_cmp") or []), {})
-        if det.get("ub") is not None:
-            return SIG_UB
         if vv["kind"] == "model-vs-spec" and det.get("sig"):
             return det["sig"]
         return vv["kind"]
@@ -235,15 +226,11 @@ class C07(vlib.HistoryProp):
             k += 1
 
     def classify(self, cases):
-        """run the model and the specification on every candidate: drop histories with undefined
-        behaviour (keep a few when that finding is recorded), give the histories that show a
-        recorded finding their own origin"""
+        """run the model and the specification on every candidate: the histories that show a
+        recorded finding (model != specification) get their own origin"""
         drv = vlib.ocaml_driver("C07")
         keep = []
         self.observed = {}
-        self.dropped_ub = 0
-        ub_kept = 0
-        ub_ok = "ub" in DEFECTS or self.enabled(SIG_UB)
         for i in range(0, len(cases), 3000):
             chunk = cases[i:i + 3000]
             outs, crashes = vlib.run_resilient(drv, ["model"], chunk, timeout=600)
@@ -252,15 +239,6 @@ class C07(vlib.HistoryProp):
                     keep.append(c)
                     continue
                 a = analyse(outs[c.id])
-                if a["ub"] is not None:
-                    self.observed.setdefault(SIG_UB, []).append(c.id)
-                    if ub_ok and ub_kept < 3 and c.origin in ("corpus", "template"):
-                        ub_kept += 1
-                        c.origin = "finding-" + SIG_UB
-                        keep.append(c)
-                    else:
-                        self.dropped_ub += 1
-                    continue
                 if a["sig"] in (SIG_STALE, SIG_PTR):
                     self.observed.setdefault(a["sig"], []).append(c.id)
                     c.origin = "finding-" + a["sig"]
@@ -286,11 +264,11 @@ class C07(vlib.HistoryProp):
 
     def canon_model(self, lines):
         a = analyse(lines)
-        m = a["m"] if a["ub"] is None else a["m"][:a["ub"]]
+        m = a["m"]
         # a difference between model and specification that is one of the recorded findings is
         # reported by check() below, not as a broken theorem
-        if a["ub"] is not None or a["sig"]:
-            self.cache[tuple(m)] = {"ub": a["ub"], "sig": a["sig"]}
+        if a["sig"]:
+            self.cache[tuple(m)] = {"sig": a["sig"]}
         return m, [], a["sig"] in (None, SIG_STALE, SIG_PTR)
 
     def canon_impl(self, lines):
@@ -314,11 +292,9 @@ def check(res, tier, seed):
                         "x two frame schedules; templates aimed at the recorded findings; seeded random histories of 1-4 host-started threads, up to 6 script threads, "
                         "2-3 objects, names a/b/c, nested thread/waitthread bodies to depth 3, waits {0,1,1,2,3} ms, frames with and "
                         "without clock advance; markers around every blocking instruction; every candidate is first run on model and specification: "
-                        "histories with undefined behaviour in the model are dropped, histories on which model and specification differ by a recorded "
-                        "finding get the origin finding-<signature>; non-trivial = one host operation made >= 2 threads print. ")
+                        "histories on which model and specification differ by a recorded finding get the origin finding-<signature>; non-trivial = one host operation made >= 2 threads print. ")
     vlib.history_check(res, HP, tier, seed)
     res.cov["findings_observed"] = {k: len(v) for k, v in HP.observed.items()}
-    res.cov["dropped_undefined_behaviour"] = HP.dropped_ub
     recorded = {f.get("signature"): f for f in vlib.known_findings("C07")}
     for sig in (SIG_STALE, SIG_PTR):
         if HP.observed.get(sig):
@@ -326,8 +302,6 @@ def check(res, tier, seed):
                 res.known_finding("%s: %s (%d generated histories, e.g. case %s)" % (sig, recorded[sig].get("what", WHAT[sig]), len(HP.observed[sig]), HP.observed[sig][0]))
             else:
                 res.notes.append("finding %s observed on %d histories but not (yet) listed in known_findings.json: %s" % (sig, len(HP.observed[sig]), WHAT[sig]))
-    if HP.observed.get(SIG_UB) and SIG_UB not in recorded:
-        res.notes.append("finding %s: %d generated histories dropped (model reports undefined behaviour): %s" % (SIG_UB, len(HP.observed[SIG_UB]), WHAT[SIG_UB]))
 
 
 def replay(path):
